@@ -471,6 +471,11 @@ func (s *IndexedState) rem(ctx *Context, id string) (bool, error) {
 }
 
 func (s *IndexedState) deleteDependencies(ctx *Context, id string) error {
+	if IsVariable(id) {
+		// No fact has such an id (see GenId), and as a pattern it
+		// would match every "deleteWith".
+		return nil
+	}
 	Log(DEBUG, ctx, "IndexedState.deleteDependencies", "location", s.Name, "id", id)
 	srs, err := s.search(ctx, Map{KW_DeleteWith: []string{id}})
 	if nil != err {
